@@ -75,6 +75,12 @@ package capella
 //@   requires readable: spec != nil && validator != nil && !v_wcred_err(validator) && !v_eb_err(validator)
 //@   ensures spec: r == (v_wcred(validator)[0] == 1 && v_eb(validator) == spec.MAX_EFFECTIVE_BALANCE && balance > spec.MAX_EFFECTIVE_BALANCE)
 
+// the fork's penalty parameters (C02, C01): slashing penalty quotient, proportional slashing multiplier, inactivity penalty quotient
+//@ func (state *BeaconStateView) ForkSettings(spec) r
+//@   property C02 C01
+//@   requires spec != nil
+//@   ensures r != nil && r.MinSlashingPenaltyQuotient == spec.MIN_SLASHING_PENALTY_QUOTIENT_BELLATRIX && r.ProportionalSlashingMultiplier == spec.PROPORTIONAL_SLASHING_MULTIPLIER_BELLATRIX && r.InactivityPenaltyQuotient == spec.INACTIVITY_PENALTY_QUOTIENT_BELLATRIX
+
 // BEGIN C18 generated (tools/gen_c18.py in /verif)
 // cancelled: a context cancelled before the call makes it fail; surfaced: a cancellation observed by a poll
 // during the call makes it fail; polled: success after a poll means the context was not cancelled at entry.
@@ -170,6 +176,7 @@ package capella
 //@     invariant ctx_t > old(ctx_t) ==> !ctx_cancelled(ctx, old(ctx_t))
 //@   assigns ghost(n_set_score)
 //@   assigns ghost(n_biter), ghost(biter_pos), ghost(biter_reg), ghost(n_set_eb)
+//@   assigns ghost(n_set_bal)
 //@   assigns ghost(n_eth1_reset), ghost(n_slash_reset), ghost(last_slash_reset), ghost(n_set_mix), ghost(last_set_mix_epoch), ghost(last_set_mix), ghost(n_hist_update)
 //@   assigns ghost(n_set_prevjust), ghost(set_prevjust), ghost(n_set_curjust), ghost(set_curjust), ghost(n_set_fin), ghost(set_fin), ghost(n_set_jbits), ghost(set_jbits)
 //@   assigns ghost(n_viter), ghost(viter_pos), ghost(viter_reg), ghost(n_val_write), ghost(n_set_exit), ghost(set_exit_v), ghost(set_exit_val), ghost(n_set_wd), ghost(set_wd_v), ghost(set_wd_val)
@@ -190,6 +197,7 @@ package capella
 //@     invariant ctx_t > old(ctx_t) ==> !ctx_cancelled(ctx, old(ctx_t))
 //@   assigns ghost(n_eng_notify), ghost(n_set_exec_header)
 //@   assigns ghost(n_set_wcred), ghost(set_wcred_v), ghost(set_wcred_val)
+//@   assigns ghost(n_set_bal)
 //@   assigns ghost(n_set_mix), ghost(last_set_mix_epoch), ghost(last_set_mix)
 //@   assigns ghost(n_set_lhdr), ghost(set_lhdr)
 //@   assigns ghost(n_viter), ghost(viter_pos), ghost(viter_reg), ghost(n_val_write), ghost(n_set_exit), ghost(set_exit_v), ghost(set_exit_val), ghost(n_set_wd), ghost(set_wd_v), ghost(set_wd_val)
@@ -207,6 +215,7 @@ package capella
 //@   loop *
 //@     invariant ctx_t >= old(ctx_t) && (old(ctx_seen) || !ctx_seen)
 //@     invariant ctx_t > old(ctx_t) ==> !ctx_cancelled(ctx, old(ctx_t))
+//@   assigns ghost(n_set_bal)
 
 //@ func ProcessHistoricalSummariesUpdate(ctx, spec, epc, state) err
 //@   property C18
